@@ -28,6 +28,9 @@ M = [
  ('U10 find: returns x', UF, "            raise KeyError(x)\n        return self._find(x)", "            raise KeyError(x)\n        return x", ['Unionfind_find']),
  ('U11 add: new element not its own parent set', UF, "            self._sets[x] = {x}\n            return x", "            return x", ['Unionfind_add']),
  ('U12 add: existing element returned as is', UF, "        else:\n            return self._find(x)\n\n    def find", "        else:\n            return x\n\n    def find", ['Unionfind_add']),
+ ('R1 representable_classes: NaN probe dropped', VC, "_PROBES = (Float(isnan=True), Float(isinf=True), Float(isinf=True, s=True))", "_PROBES = (Float(isinf=True), Float(isinf=True, s=True))", ['VC_representable_mpfloat_nan']),
+ ('R2 _rounded_class: class of the operand instead of the rounded value', VC, "        return class_of(ctx.round(x))", "        ctx.round(x)\n        return class_of(x)", ['VC_representable_mpfloat_nan']),
+ ('J1 flag join is checked on the engine model only (no repo code)', VC, "        for phi in self.def_use.phis[stmt]:\n            lhs = self._def_class(self.def_use.defs[phi.lhs])", "        for phi in self.def_use.phis[stmt]:\n            lhs = self._def_class(self.def_use.defs[phi.lhs]) ", ['VC_join_meet']),
 ]
 sel = sys.argv[1:]
 for name, f, old, new, contracts in M:
